@@ -109,8 +109,8 @@ def minimums(tier: str) -> Dict[str, int]:
                   "wide_ge_1728": 3000, "wide_ge_2624": 800, "run_ge_2624": 300})
         lo = 5000
     else:
-        m.update({"evaluations": 8000000, "distinct": 6000000, "pdf_streams_checked": 6000000,
-                  "family:pairs": 5000000, "family:bitmaps": 3000000, "family:struct": 140000, "family:codes": 8000,
+        m.update({"evaluations": 11000000, "distinct": 10000000, "pdf_streams_checked": 9500000,
+                  "family:pairs": 8000000, "family:bitmaps": 3000000, "family:struct": 140000, "family:codes": 8000,
                   "wide_ge_1728": 40000, "wide_ge_2624": 12000, "run_ge_2624": 5000})
         lo = 50000
     for md in MODES:
@@ -120,6 +120,7 @@ def minimums(tier: str) -> Dict[str, int]:
     m["seen:codes_W"] = 104
     m["seen:codes_B"] = 104
     m["seen:table_entries"] = 104 + 104 + 10
+    m["t6_encoder_vs_reference_decoder_roundtrips"] = 30000
     m["framing:align"] = lo
     m["framing:eofb"] = lo
     m["framing:rows_no_eofb"] = lo
@@ -881,6 +882,7 @@ def run_shard(spec: Dict[str, Any], rec) -> None:
             rec.fail(k, {"family": "tables"}, d)
         info = t6.selftest()
         rec.count("t6_selftest_ok")
+        rec.count("t6_encoder_vs_reference_decoder_roundtrips", t6.selftest_roundtrip())
         rec.see("t6_kraft", "white=%s black=%s" % (info["kraft_white"], info["kraft_black"]))
     elif kind == "pairs":
         run_pairs(spec, rec, ses)
